@@ -74,8 +74,11 @@ def run(ctx):
     k3 = 5 if ctx.quick() else 6
     texts += ["".join(p) for n in range(1, k3 + 1) for p in itertools.product(ALPHA3, repeat=n)]
     texts += ["".join(p) for n in range(1, k3 + 1) for p in itertools.product(ALPHA4, repeat=n)]
-    texts = list(dict.fromkeys(texts))
-    ctx.rule("all strings of length <=%d over %r, <=%d over %r, <=%d over %r and %r (exhaustive): the real lexer returns the whole string as one literal token of class K iff Spec.Lex.classify says it is a well-formed literal of class K; the Lean scanner model must agree token for token; plus random long literals of every kind with random suffixes (class and Constant.type/value through the parser), plus malformed families that must be reported through the error callback" % (k1, ALPHA1, k2, ALPHA2, k3, ALPHA3, ALPHA4))
+    # numeric constants assembled from their grammatical parts, every part present or absent
+    texts += [a + b + c + d + e + f for a in ("", "0", "0x", "0X", "0b", "1", "9") for b in ("", "1", "f", "8") for c in ("", ".")
+              for d in ("", "8", "a") for e in ("", "e", "e1", "e+1", "p", "p1", "p-1", "P+") for f in ("", "f", "L", "u", "ul", "fl")]
+    texts = list(dict.fromkeys(t for t in texts if t))
+    ctx.rule("numeric constants assembled from prefix x digits x point x fraction x exponent x suffix with every part present or absent (8064 spellings); all strings of length <=%d over %r, <=%d over %r, <=%d over %r and %r (exhaustive): the real lexer returns the whole string as one literal token of class K iff Spec.Lex.classify says it is a well-formed literal of class K; the Lean scanner model must agree token for token; plus random long literals of every kind with random suffixes (class and Constant.type/value through the parser), plus malformed families that must be reported through the error callback" % (k1, ALPHA1, k2, ALPHA2, k3, ALPHA3, ALPHA4))
     py = pmap(impl_class, texts)
     sp = run_model([req("c10", t) for t in texts]) if ctx.model_available else None
     nontriv = 0
